@@ -149,7 +149,7 @@ def wall_graph(v, tier, d):
 
 def run(tier, seed):
     v = Verdict("C11", tier, seed, "model_checking")
-    v.rule = ("MC: Contour.tla - for every fresh contour (3..5 points, start/end index as a region hands them down, endInd negative or not) and every position of "
+    v.rule = ("MC: Contour.tla - for every fresh contour (6..7 points, 6..9 at the thorough tier, start/end index as a region hands them down, endInd negative or not) and every position of "
               "the wall crossing (inside a gap near either point or in the middle, up to three extensions beyond the contour) the procedure "
               "_find_intersection + addPointAtWallToContours ends with the wall point at startInd / endInd, the other end still the point it was, all points "
               "strictly between the targets inside the wall and all others beyond it; ContourPrim.tla - insert / temporaryExtend / reverse keep designating the "
@@ -170,4 +170,33 @@ def run(tier, seed):
 
 
 def grid_part(v, tier, d):
-    pass
+    names = campaign.campaign(tier) + (campaign.C11_WALLS_QUICK if tier == "quick" else campaign.C11_WALLS)
+    names = list(dict.fromkeys(names))
+    traces, failed = gridprops.run(v, "C11", tier, names=names)
+    walled = [t for t in traces if t.get("haswall")]
+    v.note("wall_grids", {"with_wall": len(walled), "nonorthogonal": sum(1 for t in walled if not t["orth"]),
+                          "guards": sorted({t["G"] for t in walled}),
+                          "mixed_penalty_cells": sum(1 for t in walled for row in t["pm"] for p in row if 0 < p < 1000000),
+                          "outside_cells": sum(1 for t in walled for row in t["pm"] for p in row if p == 1000000)})
+    if sum(1 for t in walled if not t["orth"]) < 3:
+        v.fail_machinery("coverage floor: fewer than 3 non-orthogonal grids with a wall")
+    clean = [t for t in walled if t["id"] not in failed and not t["orth"] and t["G"] >= 1]
+    if clean:
+        muts = []
+        a = copy.deepcopy(clean[0]); a["id"] = 9101
+        a["dw"]["lo"] = [[x + 5000 for x in row] for row in a["dw"]["lo"]]
+        muts.append((a, "TargetOnWall"))
+        b = copy.deepcopy(clean[0]); b["id"] = 9102
+        b["pm"] = [[0 for x in row] for row in b["pm"]]
+        muts.append((b, "PenaltyCases"))
+        c = copy.deepcopy(clean[0]); c["id"] = 9103
+        c["wall_out7"] = c["wall_out7"][::-1]; c["wall_out3"] = c["wall_out3"][::-1]
+        muts.append((c, "WallIsInput"))
+        e = copy.deepcopy(clean[0]); e["id"] = 9104
+        e["inw"]["c"] = [[1 for x in row] for row in e["inw"]["c"]]
+        muts.append((e, "GuardsOutside"))
+        mf, _ = gridprops.validate([m for m, _ in muts], "C11mut")
+        ok = sum(1 for m, cl in muts if any(c2 == cl for c2, _ in mf.get(m["id"], ())))
+        v.note("binding_selftest_grid", {"mutants": len(muts), "rejected_with_expected_clause": ok})
+        if ok != len(muts):
+            v.fail_machinery("grid binding self-test failed: %s" % mf)
